@@ -35,7 +35,8 @@ def validate_callback_data(method):
         -------
         method's output
         """
-        expected = method.__code__.co_varnames
+        code = method.__code__
+        expected = code.co_varnames[: code.co_argcount]  # arguments only, not local variables
 
         # rename curret gam object
         if 'self' in kwargs:
